@@ -33,6 +33,12 @@ type QuestionMarkExpr struct{}
 func (e *QuestionMarkExpr) Evaluate(engine *Engine, input interface{}, args []*Statement) (interface{}, error) {
 	in := reflect.TypeOf(input)
 
+	// There are no accessors for nil, but the functions and variables can
+	// still be shown.
+	if in == nil {
+		in = reflect.TypeOf(struct{}{})
+	}
+
 	if in.Kind() == reflect.Slice {
 		value := reflect.Zero(TypeOfSliceElement(input)).Interface()
 
